@@ -118,7 +118,7 @@ def check(ck: Check) -> None:
     ck.run("R04.3", "tip set", lambda: r04_3(ck))
     ck.run("R04.4", "height index", lambda: r04_4(ck))
     ck.run("R04.5", "readers", lambda: r04_5(ck))
-    ck.run("R04.6", "forks()", lambda: r04_6(ck))
+    # (forks() is a reporting helper, not part of the property: R04.6 was withdrawn - it pinned the shape of a function C04 does not mention)
     from .common import rule_ctor_identity
     ck.run("R04.7", "CoinState stores what it is given", lambda: rule_ctor_identity(
         ck, "R04.7", "skepticoin.coinstate.CoinState",
